@@ -1,4 +1,4 @@
-// go2coq --repo DIR --out FILE --pkg PKGDIR --funcs A,B,T.M,... [--fuel F#N=COQNAT]...
+// go2coq --repo DIR --out FILE --pkg PKGDIR --funcs A,B,T.M,... [--fuel F#N=COQNAT]... [--param pkg.Func=NAME]... [--iface S.f.M=NAME]...
 //
 // Translates a subset of Go functions of the repository into executable
 // Gallina (shallow embedding over coq/lib/GoLite.v).  One output file per
@@ -19,6 +19,8 @@ import (
 	"flag"
 	"fmt"
 	"os"
+	"os/exec"
+	"path/filepath"
 	"strings"
 )
 
@@ -32,21 +34,50 @@ func main() {
 	out := flag.String("out", "", "output file")
 	pkg := flag.String("pkg", "", "package directory relative to the repository root")
 	funcs := flag.String("funcs", "", "comma separated root functions (methods as Type.Method)")
-	var fuels, params multiFlag
+	var fuels, params, ifaces multiFlag
 	flag.Var(&fuels, "fuel", "Func#N=<Coq nat expression>: fuel of the N-th loop of Func (overrides the default)")
 	flag.Var(&params, "param", "pkg.Func=NAME: a call of this parameterless library function becomes the Coq variable NAME of the enclosing section")
+	flag.Var(&ifaces, "iface", "Struct.field.Method=NAME: a call of this interface method on a struct field becomes a call of the Coq function parameter NAME")
+	var shapes multiFlag
+	flag.Var(&shapes, "shape", "Func=SKELETON: the control skeleton the proofs of this tie were written for; a function with another skeleton is left out")
+	require := flag.String("require", "", "comma separated functions that must be translated (default: all roots); the others may be left out")
+	printShapes := flag.Bool("print-shapes", false, "print Func=SKELETON for every function that would be translated and exit")
+	selfcheck := flag.String("selfcheck", "", "directory of the compiled GL library: compile the generated file with coqc and fail if it does not check")
 	flag.Parse()
-	if *out == "" || *pkg == "" || *funcs == "" {
+	if (*out == "" && !*printShapes) || *pkg == "" || *funcs == "" {
 		fmt.Fprintln(os.Stderr, "go2coq: --out, --pkg and --funcs are required")
 		os.Exit(2)
 	}
-	text, err := translate(*repo, *pkg, strings.Split(*funcs, ","), fuels, params)
+	var req []string
+	if *require != "" {
+		req = strings.Split(*require, ",")
+	}
+	text, err := translate(*repo, *pkg, strings.Split(*funcs, ","), fuels, params, ifaces, shapes, req, *printShapes)
 	if err != nil {
 		fmt.Fprintln(os.Stderr, "go2coq:", err)
 		os.Exit(1)
 	}
+	if *printShapes {
+		fmt.Print(text)
+		return
+	}
 	if err := os.WriteFile(*out, []byte(text), 0o644); err != nil {
 		fmt.Fprintln(os.Stderr, "go2coq:", err)
 		os.Exit(1)
+	}
+	if *selfcheck != "" {
+		// generated Gallina must always be well-formed: a file that does not
+		// compile is a defect of the translator, reported as "outside the subset"
+		cmd := exec.Command("coqc", "-Q", *selfcheck, "GL", filepath.Base(*out))
+		cmd.Dir = filepath.Dir(*out)
+		if b, err := cmd.CombinedOutput(); err != nil {
+			msg := string(b)
+			if len(msg) > 600 {
+				msg = msg[len(msg)-600:]
+			}
+			os.Remove(*out)
+			fmt.Fprintln(os.Stderr, "go2coq: the generated file does not compile (translator defect; treated as outside the subset):", msg)
+			os.Exit(1)
+		}
 	}
 }
